@@ -80,4 +80,9 @@ Definition ic_convert_spec (un : units) (ac : bool) (n : list Z) (s : list K) (e
   | UVoxel => map (fun p => snd p * cube_to_voxel ac (fst p)) (combine n e)
   | UWorld => map (fun p => snd (fst p) * cube_to_voxel ac (fst (fst p)) * snd p) (combine (combine n e) s)
   end.
+
+(* what every derivative mode must divide by: d/dx_a by spacing_a, d2/dx_a dx_b by spacing_a * spacing_b
+   (keys x, y, z, xx, xy, xz, yy, yz, zz of a 3-D image with spacing (h0, h1, h2)) *)
+Definition sd_spec (h0 h1 h2 x : K) : list K :=
+  [x / h0; x / h1; x / h2; x / (h0 * h0); x / (h0 * h1); x / (h0 * h2); x / (h1 * h1); x / (h1 * h2); x / (h2 * h2)].
 End Reg.
